@@ -7,7 +7,7 @@ STUB_E1 = ["global allocator (deterministic auditing arena at a fixed address)",
 
 ASSUME_E1 = [
     "sampling: a clean batch is evidence, not proof",
-    "brood is exercised through the harness component zoo (plain, zero-sized, boxed, 64-aligned, one-byte, Vec-owning, 16-aligned, and one without a destructor) and the generated call-site catalogues for a 7-component registry and, with smaller samples, a 10-component registry (two identifier bytes), a 9-component one, an 8-component one (no padding bits, run on a world without resources) and, for C01 C02 C06 C11 C13, the empty registry; for C01 C02 C03 C06 C10 also a 72-component registry (nine identifier bytes, more than one 64-bit word) in a smaller simulator of its own (widesim: 13 of the components instantiated, 26 shapes, 18 queries, insert / extend / remove / clear / Entry::add / Entry::remove / queries / token round trips / clone / clone_from / shrink_to_fit against a map model); for C15 C06 also a world with sixteen resources of sixteen types and a two-component registry (ressim: get / get_mut per type, 16 view lists through view_resources and as a query's resource views, four encodings, clone, clone_from)",
+    "brood is exercised through the harness component zoo (plain, zero-sized, boxed, 64-aligned, one-byte, Vec-owning, 16-aligned, and one without a destructor) and the generated call-site catalogues for a 7-component registry and, with smaller samples, a 10-component registry (two identifier bytes), a 9-component one, an 8-component one (no padding bits, run on a world without resources) and, for C01 C02 C06 C11 C13, the empty registry; for C01 C02 C03 C06 C10 C16 also a 72-component registry (nine identifier bytes, more than one 64-bit word) in a smaller simulator of its own (widesim: 13 of the components instantiated, 26 shapes, 18 queries, insert / extend / remove / clear / Entry::add / Entry::remove / queries / token round trips / clone / clone_from / shrink_to_fit against a map model); for C15 C06 also a world with sixteen resources of sixteen types and a two-component registry (ressim: get / get_mut per type, 16 view lists through view_resources and as a query's resource views, four encodings, clone, clone_from)",
     "the reference model (BTreeMap of identifier -> component values) is trusted",
     "the dump hook (World::verif_dump, cfg brood_verif) reports the structures faithfully",
 ]
@@ -74,7 +74,7 @@ _add("worldsim8", "C17", 240, 3600, chunks=4)
 _add("worldsim9", "C17", 240, 3600, chunks=4)
 
 # The wide registry (72 components, nine identifier bytes): a smaller simulator of its own (harness/widesim).
-for _p in ("C01", "C02", "C03", "C06", "C10"):
+for _p in ("C01", "C02", "C03", "C06", "C10", "C16"):
     _add("widesim", _p, 24000, 240000, chunks=1)
 
 # A world with sixteen resources (harness/ressim): positions and lengths of the resource list.
